@@ -119,7 +119,11 @@ def evaluate(job, res):
 
 def run_batch(jobs, sim_dir=SIM_DIR, repo=REPO, workers=NCPU, stop_on_violation=True, progress=True):
     import threading
-    order = sorted(jobs, key=lambda j: -runner.predicted_cost(j))
+    # longest first (makespan), except that the cheap special-purpose kinds — thread churn, coarse clock, many
+    # threads, pooled 16-thread runs: together a few per cent of the batch — go to the front, so that what only
+    # they can see is reported in the first minute rather than the last
+    front = {"G", "C", "T", "P16"}
+    order = sorted(jobs, key=lambda j: (0 if j.get("kind") in front else 1, -runner.predicted_cost(j)))
     recs = []
     stop = False
     cancel = threading.Event()
